@@ -211,7 +211,15 @@ def states(tr):
 
 def o_halt(tr):
     if tr.halted:
-        yield {"oracle": "halt", "signature": tr.halted.replace(" ", "-"), "detail": "the chain panicked in " + tr.halted}
+        why = [l for l in tr.soft if l.startswith(("b panic", "e panic"))]
+        reason = why[-1].split(" ", 2)[2] if why else ""
+        if "invalid_coin_denominations" in reason:
+            cls = "denom-change"
+        elif "overflow" in reason:
+            cls = "int-overflow"
+        else:
+            cls = re.sub(r"[^A-Za-z_]+", "", reason)[:40] or "unknown"
+        yield {"oracle": "halt", "signature": tr.halted.split()[0] + "-" + cls, "detail": "the chain panicked in %s: %s" % (tr.halted, reason[:150])}
 
 
 def o_c02(tr):
@@ -323,6 +331,57 @@ def o_c05(tr):
                 if not touched and d.spendable.get(a, {}).get(dn, 0) > prev.spendable.get(a, {}).get(dn, 0):
                     kind = "vesting" if prev.spendable.get(a, {}).get(dn, 0) < prev.bal.get(a, {}).get(dn, 0) else "base"
                     yield {"oracle": "spendable-increase", "signature": "purchaser=" + kind, "detail": "order %d purchaser %s" % (i, a)}
+
+
+def o_c05_granter(tr):
+    """the amount unlocked for a fee must leave the payer as fee: with a fee granter the payer's own balance must not rise"""
+    for prev, b, d in states(tr):
+        if prev is None:
+            continue
+        for tx in b["txs"]:
+            if tx["result"] != "ok" or tx["hdr"].get("granter", "-") == "-":
+                continue
+            if not any(k.startswith(("wrk.", "bcn.")) and not k.endswith("params") for k in tx["kinds"]):
+                continue
+            payer = tx["hdr"].get("signers", "").split(",")[0]
+            if len([t for t in b["txs"] if payer in t["line"].split() or ("signers=" + payer) in t["line"]]) != 1:
+                continue    # only judge blocks in which this is the payer's only transaction
+            lb = prev.locked.get(payer, (0, ""))[0]; la = d.locked.get(payer, (0, ""))[0]
+            if la < lb:
+                dn = prev.locked[payer][1]
+                if d.bal.get(payer, {}).get(dn, 0) > prev.bal.get(payer, {}).get(dn, 0):
+                    yield {"oracle": "unlocked-not-paid-as-fee", "signature": "fee-granter",
+                           "detail": "tx %s: locked of %s fell by %d while its balance rose by %d (granter %s paid the fee)" %
+                           (tx["n"], payer, lb - la, d.bal[payer].get(dn, 0) - prev.bal.get(payer, {}).get(dn, 0), tx["hdr"]["granter"])}
+
+
+def o_c05_amount(tr):
+    """an executed WRKChain/BEACON transaction moves exactly min(fee in the enterprise denomination, locked) from locked to spent"""
+    for prev, b, d in states(tr):
+        if prev is None or not prev.ent_params:
+            continue
+        dn = prev.ent_params["denom"]
+        completing = set(addr_id(po["purchaser"]) for i, po in d.po.items() if po["status"] == 4 and i in prev.po and prev.po[i]["status"] != 4)
+        for tx in b["txs"]:
+            if tx["result"] != "ok":
+                continue
+            if not any(k.startswith(("wrk.", "bcn.")) and not k.endswith("params") for k in split_top_kinds(tx["body"])):
+                continue
+            payer = tx["hdr"].get("signers", "").split(",")[0]
+            mine = [t for t in b["txs"] if t["hdr"].get("signers", "").split(",")[0] == payer]
+            if len(mine) != 1 or payer in completing or any(g["body"] and g["body"][0] == "ent.params" for g in b["govs"]):
+                continue
+            lb = prev.locked.get(payer, (0, ""))[0]; la = d.locked.get(payer, (0, ""))[0]
+            sb = prev.spent.get(payer, (0, ""))[0]; sa = d.spent.get(payer, (0, ""))[0]
+            fee = coins(tx["hdr"].get("fee", "-")).get(dn, 0)
+            want = min(fee, lb)
+            if lb - la != want or sa - sb != want:
+                yield {"oracle": "unlock-amount", "signature": "not-min(fee,locked)",
+                       "detail": "tx %s payer %s: locked %d -> %d, spent %d -> %d, fee %d%s" % (tx["n"], payer, lb, la, sb, sa, fee, dn)}
+
+
+def split_top_kinds(body):
+    return [m[0] for m in split_msgs(body) if m]
 
 
 def o_c07(tr):
@@ -457,6 +516,129 @@ def o_c16(tr):
             yield {"oracle": "str-params-valid", "signature": "invalid", "detail": str(d.str_fee)}
 
 
+def split_msgs(body):
+    """top-level messages of a TX/CHECK body (`;` separated)"""
+    out, cur = [], []
+    for w in body:
+        if w == ";":
+            out.append(cur); cur = []
+        else:
+            cur.append(w)
+    if cur:
+        out.append(cur)
+    return out
+
+
+ARITY = {"ent.raise": 3, "ent.decide": 3, "ent.wl": 3, "ent.params": 5, "wrk.reg": 5, "wrk.rec": 8, "wrk.buy": 3, "wrk.params": 7,
+         "bcn.reg": 3, "bcn.rec": 4, "bcn.buy": 3, "bcn.params": 7, "str.create": 5, "str.claim": 2, "str.topup": 4, "str.rate": 3,
+         "str.cancel": 2, "str.params": 2, "bank.send": 3, "authz.grant": 3, "authz.revoke": 3, "feegrant.grant": 2}
+
+
+def parse_msg(toks, i):
+    """parse one message in prefix form at toks[i]; returns (tree, next index); tree = (kind, args, [payload trees])"""
+    k = toks[i]
+    if k == "authz.exec":
+        n = int(toks[i + 2]); j = i + 3; subs = []
+        for _ in range(n):
+            t, j = parse_msg(toks, j)
+            subs.append(t)
+        return (k, toks[i + 1:i + 3], subs), j
+    a = ARITY[k]
+    return (k, toks[i + 1:i + 1 + a], []), i + 1 + a
+
+
+def module_ops(body):
+    """[(module, op, slots, nested)] for every WRKChain/BEACON operation the transaction would execute"""
+    ops = []
+
+    def walk(t, nested):
+        k, args, subs = t
+        if k in ("wrk.reg", "wrk.rec", "bcn.reg", "bcn.rec"):
+            ops.append((k[:3], k[4:], 0, nested))
+        elif k in ("wrk.buy", "bcn.buy"):
+            ops.append((k[:3], "buy", int(args[1]), nested))
+        for x in subs:
+            walk(x, True)
+    for m in split_msgs(body):
+        try:
+            t, _ = parse_msg(m, 0)
+        except (KeyError, ValueError, IndexError):
+            continue
+        walk(t, False)
+    return ops
+
+
+def o_c06(tr):
+    """independent fee oracle on every admitted CHECK: amount offered in the module's fee denomination = sum over ALL
+    WRKChain/BEACON operations (nested ones included) of the parameterised fees in force"""
+    prev = tr.genesis
+    groups = [(b["checks"], None) for b in tr.blocks] + [(getattr(tr, "trailing_checks", []), None)]
+    digests = [tr.genesis] + [b["digest"] for b in tr.blocks]
+    for gi, (checks, _) in enumerate(groups):
+        d = digests[gi] if gi < len(digests) else None
+        if d is None:
+            break
+        for c in checks:
+            if c["result"] != "ok":
+                continue
+            ops = module_ops(c["body"])
+            if not ops:
+                continue
+            fee = coins(c["hdr"].get("fee", "-"))
+            want = {}
+            for (m, op, n, nested) in ops:
+                q = d.regparams[m]
+                want[q["denom"]] = want.get(q["denom"], 0) + (q[op] * n if op == "buy" else q[op])
+            for dn, w in want.items():
+                if fee.get(dn, 0) != w:
+                    sig = "nested" if any(o[3] for o in ops) else ("mixed" if len(set(o[0] for o in ops)) > 1 else "amount")
+                    yield {"oracle": "fee-exact", "signature": sig,
+                           "detail": "CHECK %s admitted offering %d%s, operations cost %d: %s" % (c["n"], fee.get(dn, 0), dn, w, " ".join(c["body"])[:160])}
+
+
+SIGNER_POS = {"ent.raise": 0, "ent.decide": 2, "ent.wl": 2, "wrk.reg": 4, "wrk.rec": 7, "wrk.buy": 2, "bcn.reg": 2, "bcn.rec": 3, "bcn.buy": 2,
+              "str.create": 1, "str.claim": 0, "str.topup": 1, "str.rate": 1, "str.cancel": 1, "bank.send": 0, "authz.grant": 0,
+              "authz.revoke": 0, "authz.exec": 0, "feegrant.grant": 0}
+
+
+def o_c13(tr):
+    """every executed top-level message was signed by the account named in its signer field, and that account is the
+    entitled party according to the state committed before the block"""
+    for prev, b, d in states(tr):
+        if prev is None:
+            continue
+        ent_signers = set(addr_id(x) for x in (prev.ent_params["signers"].split(",") if prev.ent_params and prev.ent_params["signers"] != "-" else []))
+        for tx in b["txs"]:
+            if tx["result"] != "ok":
+                continue
+            signed = set(tx["hdr"].get("signers", "").split(","))
+            for m in split_msgs(tx["body"]):
+                try:
+                    (k, args, subs), _ = parse_msg(m, 0)
+                except (KeyError, ValueError, IndexError):
+                    continue
+                if k not in SIGNER_POS:
+                    continue
+                who = addr_id(args[SIGNER_POS[k]])
+                if who not in signed:
+                    yield {"oracle": "signed-by-named-signer", "signature": k, "detail": "tx %s executed %s naming %s, signed by %s" % (tx["n"], k, who, sorted(signed))}
+                if k in ("ent.decide", "ent.wl") and who not in ent_signers:
+                    yield {"oracle": "entitled", "signature": k, "detail": "tx %s: %s is not an authorised enterprise signer" % (tx["n"], who)}
+                if k == "ent.raise" and who not in set(prev.wl) and not any("ent.wl" in t["kinds"] for t in b["txs"]):
+                    yield {"oracle": "entitled", "signature": k, "detail": "tx %s: %s is not whitelisted" % (tx["n"], who)}
+                if k in ("wrk.rec", "wrk.buy", "bcn.rec", "bcn.buy"):
+                    reg = prev.reg[k[:3]].get(int(args[0]))
+                    if reg is not None and addr_id(reg["owner"]) != who:
+                        yield {"oracle": "entitled", "signature": k, "detail": "tx %s: %s is not the owner (%s) of %s" % (tx["n"], who, reg["owner"], args[0])}
+                if k in ("str.topup", "str.rate", "str.cancel", "str.claim"):
+                    r, sn = addr_id(args[0]), addr_id(args[1])
+                    if (r, sn) not in prev.streams and not any(kk == "str.create" for t in b["txs"] for kk in t["kinds"]):
+                        yield {"oracle": "entitled", "signature": k, "detail": "tx %s: no stream %s/%s" % (tx["n"], r, sn)}
+        for gv in b["govs"]:
+            if gv["result"] == "ok" and gv["body"] and gv["body"][0].endswith(".params") and gv["body"][1] != "Mgov":
+                yield {"oracle": "entitled", "signature": "params-authority", "detail": " ".join(gv["body"][:3])}
+
+
 def o_invariants(tr):
     for l in tr.soft:
         if l.startswith("x inv") and l.endswith("broken"):
@@ -464,9 +646,9 @@ def o_invariants(tr):
 
 
 ORACLES = {
-    "C02": [o_c02, o_invariants], "C03": [o_c03], "C04": [o_c04, o_invariants], "C05": [o_c05], "C07": [o_c07], "C08": [o_c08],
+    "C02": [o_c02, o_invariants], "C03": [o_c03], "C04": [o_c04, o_invariants], "C05": [o_c05, o_c05_granter, o_c05_amount], "C07": [o_c07], "C08": [o_c08],
     "C09": [o_c09], "C10": [o_c10, o_invariants], "C11": [o_c11], "C12": [o_c12], "C14": [o_c14], "C16": [o_c16],
-    "C13": [], "C06": [], "C01": [],
+    "C13": [o_c13], "C06": [o_c06], "C01": [],
 }
 
 
